@@ -62,26 +62,33 @@ Qed.
 (* ------------------------------------------------------------------------------------------ *)
 (* 2. A Program run is read-only on the Program                                               *)
 
-Lemma ev_vop_ok : forall r p o, vop_ok o = true ->
+Lemma forallb_flat_map : forall {A B} (f : B -> bool) (g : A -> list B) l,
+  forallb f (flat_map g l) = forallb (fun x => forallb f (g x)) l.
+Proof.
+  intros A B f g l. induction l as [|x l IH]; simpl; [reflexivity|].
+  rewrite forallb_app, IH. reflexivity.
+Qed.
+
+Lemma ev_vop_ok : forall r p o,
   forallb (fun e => respectsb r e && negb (writes_prog p e)) (ev_vop r p o) = true.
 Proof.
-  intros r p o H. destruct o; simpl in H; try discriminate; simpl;
-    repeat rewrite Nat.eqb_refl; reflexivity.
+  intros r p o. destruct o; simpl; repeat rewrite Nat.eqb_refl; try reflexivity.
+  (* OTaggedTmpl: the copy loop reads every cell *)
+  rewrite forallb_app. simpl. rewrite Nat.eqb_refl. simpl. rewrite andb_true_r.
+  rewrite forallb_flat_map. apply forallb_forall. intros i _. reflexivity.
 Qed.
 
-Lemma run_ok : forall r p ops, forallb vop_ok ops = true ->
+Lemma run_ok : forall r p ops,
   forallb (fun e => respectsb r e && negb (writes_prog p e)) (events_of_run r p ops) = true.
 Proof.
-  intros r p ops. induction ops as [|o ops IH]; simpl; intros H; [reflexivity|].
-  apply andb_true_iff in H. destruct H as [Ho Hops].
-  unfold events_of_run in *. simpl. rewrite forallb_app. rewrite (ev_vop_ok r p o Ho). simpl.
-  apply IH. exact Hops.
+  intros r p ops. unfold events_of_run. rewrite forallb_flat_map.
+  apply forallb_forall. intros o _. apply ev_vop_ok.
 Qed.
 
-Theorem program_run_readonly : forall r p ops, forallb vop_ok ops = true ->
-  forall e, In e (events_of_run r p ops) -> writes_prog p e = false /\ respects r e.
+Theorem program_run_readonly : forall r p ops e,
+  In e (events_of_run r p ops) -> writes_prog p e = false /\ respects r e.
 Proof.
-  intros r p ops H e He. pose proof (run_ok r p ops H) as F.
+  intros r p ops e He. pose proof (run_ok r p ops) as F.
   rewrite forallb_forall in F. specialize (F e He). apply andb_true_iff in F. destruct F as [F1 F2].
   split; [destruct (writes_prog p e); [discriminate|reflexivity]|apply respectsb_spec; exact F1].
 Qed.
@@ -97,14 +104,13 @@ Qed.
 (* 3. any number of runtimes running one Program (and sharing non-imported primitives), any schedule *)
 Theorem race_free_shared_program : forall (p : N) (ths : list (list event)),
   (forall t, t < length ths ->
-     exists ops uses, forallb vop_ok ops = true /\
-                      nth t ths [] = events_of_run t p ops ++ events_of_prims t uses) ->
+     exists ops uses, nth t ths [] = events_of_run t p ops ++ events_of_prims t uses) ->
   forall tr, interleaving ths tr -> ~ race tr.
 Proof.
   intros p ths H tr Hi. apply (readonly_no_race ths tr Hi).
-  intros t e Ht He. destruct (H t Ht) as (ops & uses & Hok & Heq). rewrite Heq in He.
+  intros t e Ht He. destruct (H t Ht) as (ops & uses & Heq). rewrite Heq in He.
   apply in_app_or in He. destruct He as [He|He].
-  - apply (program_run_readonly t p ops Hok e He).
+  - apply (program_run_readonly t p ops e He).
   - apply (prims_ok t uses e He).
 Qed.
 
@@ -117,7 +123,7 @@ Proof.
 Qed.
 
 (* ------------------------------------------------------------------------------------------ *)
-(* 4. Refutations: the current code races                                                     *)
+(* 4. without synchronisation events, happens-before is program order                         *)
 
 Definition nosync (e : event) : bool :=
   match e with Acc k _ _ => negb (is_atomic k) | _ => false end.
@@ -134,51 +140,15 @@ Proof.
     rewrite Hj in Hj'. inversion Hj'; subst. eauto.
 Qed.
 
-(* two goroutines call Length() on one unscanned importedString; both find scanned = false *)
-Definition imported_race_trace (s : N) : trace :=
-  match ev_length s false with
-  | e0 :: rest => (0, e0) :: (1, e0) :: map (pair 0) rest ++ map (pair 1) rest
-  | [] => []
-  end.
-
-Lemma imported_race_refuted : forall s, exists tr,
-  interleaving [ev_length s false; ev_length s false] tr /\ consistent tr /\ lock_wf tr /\ race tr.
+(* the model is not vacuous about races: the same two accesses WITHOUT the protocol do race
+   (two goroutines, an unsynchronised write and read of one location) *)
+Lemma unsynchronised_access_races : forall l, race [(0, Wr l); (1, Rd l)].
 Proof.
-  intros s. exists (imported_race_trace s). repeat split.
-  - intros t e H. simpl in H.
-    repeat (destruct H as [H|H]; [inversion H; simpl; lia|]). contradiction.
-  - intros t Ht. simpl in Ht. destruct t as [|[|t]]; [reflexivity|reflexivity|lia].
-  - intros i t k l v H Hw Hf.
-    do 12 (destruct i as [|i]; [simpl in H; inversion H; subst; simpl in *; try discriminate; reflexivity|]).
-    destruct i; discriminate.
-  - intros a c t t' m _ H _.
-    do 12 (destruct a as [|a]; [simpl in H; inversion H|]). destruct a; discriminate.
-  - exists 1, 4. split; [lia|].
-    exists 1, 0, (Acc KRd (LImpScanned s) false), (Acc KWr (LImpScanned s) true).
-    repeat split; try reflexivity; try lia.
-    intros Hhb. apply hb_nosync_same_thread in Hhb.
-    + destruct Hhb as (t & a & b & H1 & H4). simpl in H1, H4. congruence.
-    + repeat constructor.
-Qed.
-
-(* finding C16-N1: two runtimes execute the permitted no-op redefinition of one template cell *)
-Lemma tmpl_redefine_race_refuted : forall p site raw i, exists tr,
-  interleaving [events_of_run 0 p [OTmplRedefine site raw i]; events_of_run 1 p [OTmplRedefine site raw i]] tr /\
-  race tr.
-Proof.
-  intros p site raw i.
-  exists (map (pair 0) (events_of_run 0 p [OTmplRedefine site raw i]) ++
-          map (pair 1) (events_of_run 1 p [OTmplRedefine site raw i])).
-  split; [split|].
-  - intros t e H. simpl in H.
-    repeat (destruct H as [H|H]; [inversion H; simpl; lia|]). contradiction.
-  - intros t Ht. simpl in Ht. destruct t as [|[|t]]; [reflexivity|reflexivity|lia].
-  - exists 3, 7. split; [lia|].
-    exists 0, 1, (Wr (LProg p (PTmplCell site raw i))), (Rd (LProg p (PTmplCell site raw i))).
-    repeat split; try reflexivity; try lia.
-    intros Hhb. apply hb_nosync_same_thread in Hhb.
-    + destruct Hhb as (t & a & b & H1 & H4). simpl in H1, H4. congruence.
-    + repeat constructor.
+  intros l. exists 0, 1. split; [lia|]. exists 0, 1, (Wr l), (Rd l).
+  repeat split; try reflexivity; try lia.
+  intros Hhb. apply hb_nosync_same_thread in Hhb.
+  - destruct Hhb as (t & a & b & H1 & H2). simpl in H1, H2. congruence.
+  - repeat constructor.
 Qed.
 
 (* ------------------------------------------------------------------------------------------ *)
@@ -186,6 +156,10 @@ Qed.
 
 Theorem cross_runtime_object_rejected : forall r rt, rt <> r -> to_value r (GObject rt) = TVTypeError.
 Proof. intros r rt H. simpl. destruct (Nat.eqb rt r) eqn:E; [apply Nat.eqb_eq in E; contradiction|reflexivity]. Qed.
+
+(* open finding C16-N2: a value passed directly as an argument of another runtime's Callable is not checked *)
+Lemma call_arg_refuted : exists r g, call_arg_impl r g <> to_value r g.
+Proof. exists 1, (GObject 0). discriminate. Qed.
 
 Theorem same_runtime_or_primitive_accepted : forall r g,
   (forall rt, g = GObject rt -> rt = r) -> g <> GNilObject -> to_value r g = TVOk g.
